@@ -730,6 +730,42 @@ def run_lifecycle(spec, rec):
     rec.case(spec, len(set(spec["ops"])) >= 2, sorted(classes))
 
 
+# ---------------------------------------------------------------------------
+# high degree: terms of degree 7..12 over a 12-label pool (the expansion of one boolean term of degree d has 2^d spin
+# terms and vice versa; anything that depends on the degree shows only here)
+
+HIGH_POOLS = [list(range(12)), ["v%d" % i for i in range(12)],
+              [0, "a", 1, "b", ("x", 1), -3, 7, "c", ("y", 0), 11, "d", 5]]
+
+
+def highdeg_cases():
+    def for_fn(fn):
+        spin_src = fn in ("puso_to_pubo",) or fn.endswith("<-spin")
+        name = fn.split("<-")[0]
+        if name in FUNCS:
+            kinds = (["dict_spin", "PUSO", "PUSOMatrix"] if FUNCS[name][0] else ["dict_bool", "PUBO", "PUBOMatrix"])
+        else:
+            kinds = ["PUSO", "PCSO"] if spin_src else ["PUBO", "PCBO"]
+
+        def for_kind(kind):
+            pools = [HIGH_POOLS[0]] if gen.is_matrix(kind) else HIGH_POOLS
+            return st.sampled_from(pools).flatmap(lambda pool: st.integers(7, 12).flatmap(lambda n: st.fixed_dictionaries({
+                "fn": st.just(name), "opt": st.just({}),
+                "src": st.fixed_dictionaries({
+                    "kind": st.just(kind), "labels": st.just(list(pool[:n])), "ctor": st.sampled_from(["iadd", "dict"]),
+                    "ctype": gen.CTYPE,
+                    "terms": st.tuples(
+                        st.lists(st.tuples(gen.key_strategy(list(pool[:n]), n, False, min_deg=7), gen.INT_COEFS).map(list),
+                                 min_size=1, max_size=2),
+                        gen.poly_strategy(list(pool[:n]), 3, 4, gen.MIXED_COEFS)).map(lambda t: t[0] + t[1]),
+                })})))
+        return st.sampled_from(kinds).flatmap(for_kind)
+    fns = ["pubo_to_puso", "puso_to_pubo", "to_puso", "to_pubo", "to_puso<-spin", "to_pubo<-spin", "to_enumerated",
+           "to_enumerated<-spin"]
+    return st.sampled_from(fns).flatmap(for_fn)
+
+
 def subchecks(tier):
     return [Sub("convert", cases(), run_case, quick=48000, thorough=600000),
+            Sub("highdeg", highdeg_cases(), run_case, quick=600, thorough=12000),
             Sub("lifecycle", lifecycle_cases(), run_lifecycle, quick=5000, thorough=80000)]
